@@ -1518,6 +1518,20 @@ func (b *Bitmap) ImportRoaringBits(data []byte, clear bool, log bool, rowSize ui
 		return 0, nil, errors.New("failed to create roaring iterator, but don't know why")
 	}
 
+	// Walk the whole payload once before touching the bitmap: a container the
+	// iterator refuses must not leave the containers before it merged.
+	if vitr, verr := newRoaringIterator(data); verr == nil && vitr != nil {
+		var vtyp byte
+		for _, vtyp, _, _, _, verr = vitr.Next(); verr == nil; _, vtyp, _, _, _, verr = vitr.Next() {
+			if vtyp != containerArray && vtyp != containerBitmap && vtyp != containerRun {
+				return 0, nil, fmt.Errorf("unknown container type %d", vtyp)
+			}
+		}
+		if verr != io.EOF {
+			return 0, nil, verr
+		}
+	}
+
 	rowSet = make(map[uint64]int)
 
 	var synthC Container
